@@ -8,7 +8,9 @@ every CR / LF (write_headers last-line guard).
 Engine A (CrossHair): the real RequestHandler.set_header / add_header / set_status / redirect /
 set_cookie -> flush -> real HTTP1Connection.write_headers -> FakeStream; one application string in one
 argument position; either the call raises or the wire holds exactly the expected number of lines, none
-with CR/LF/NUL, and an accepted header *name* is an RFC 9110 token.
+with CR/LF/NUL, and an accepted header *name* is an RFC 9110 token.  Positions 11..14 answer through the low-level
+API instead: request.connection.write_headers(ResponseStartLine(version, code, reason), headers) with the application
+string as reason, as a value/name stored with headers[name] = value (unvalidated) or as a value given to headers.add.
 """
 from typing import List
 
@@ -36,7 +38,7 @@ class FixedTime:
 
 # one representative per character class of the validators (Engine B proves the classes for all strings)
 ALPH = ["x", "\r", "\n", "\0", " ", "\t", ":", ";", "<", "=", "\x7f", "\x80", "\xff", "Ā", "\x1f", ",", "/", "\x0b"]
-NAPI = 11
+NAPI = 15      # 0..10 RequestHandler APIs, 11..14 direct HTTPConnection.write_headers positions
 
 
 def make_handler(env):
@@ -115,17 +117,21 @@ def classify_e2e(api, asbytes, cs):
     s = "".join(ALPH[c] for c in cs)
     if api == 0 and not is_token(s):
         return "set_header_name_unvalidated"
+    if 11 <= api <= 13 and "\0" in s and "\r" not in s and "\n" not in s:
+        return "direct_write_headers_nul"
     return None
 
 
 @harness(
     pre=pre_e2e,
     quick=dict(L=2, timeout=200, reach_timeout=90), thorough=dict(L=3, timeout=1200, reach_timeout=120),
-    nshards=NAPI, reach=["rejected", "on_wire"], classify=classify_e2e,
+    nshards=NAPI, reach=["rejected", "on_wire", "direct_rejected", "direct_on_wire"], classify=classify_e2e,
     units=["web.RequestHandler.set_header", "web.RequestHandler.add_header", "web.RequestHandler.set_status",
            "web.RequestHandler.redirect", "web.RequestHandler.set_cookie", "web.RequestHandler._convert_header_value",
            "web.RequestHandler.flush", "http1connection.HTTP1Connection.write_headers",
-           "httputil.HTTPHeaders.add", "httputil.HTTPHeaders.__setitem__"],
+           "httputil.HTTPHeaders.add", "httputil.HTTPHeaders.__setitem__",
+           "http1connection.HTTP1Connection.write_headers driven directly (api 11..14: reason / value via "
+           "headers[name]=value / name / value via headers.add)"],
     stubs=["FakeStream (vp/fakestream.py) captures stream.write; VLoop/FakeAio virtual loop",
            "handler built over a real HTTP1Connection whose request line/headers are preset (no request read)",
            "time module of tornado.web/httputil replaced by a fixed clock (Date header)",
@@ -141,6 +147,9 @@ def h_e2e(api: int, asbytes: bool, cs: List[int]):
     if classify_e2e(api, asbytes, cs) in P.exclude:
         return
     web.time = httputil.time = FixedTime()
+    if api >= 11:
+        _direct(api, s)
+        return
     with install() as env:
         h, stream = make_handler(env)
         arg = s
@@ -183,12 +192,62 @@ def h_e2e(api: int, asbytes: bool, cs: List[int]):
             assert lines.count((httputil._normalize_header(s) + ": v").encode("latin1")) == 1
 
 
+def direct_call(env, api, s):
+    """An application answering through the low-level API: request.connection.write_headers(start_line, headers).
+    Returns (wire, exception, intended status line, intended header line)."""
+    h, stream = make_handler(env)
+    reason, name, value = "OK", "X-A", "v"
+    headers = HTTPHeaders()
+    exc = None
+    try:
+        if api == 11:
+            reason = s
+            headers[name] = value
+        elif api == 12:
+            value = s
+            headers[name] = value              # __setitem__: HTTPHeaders does not validate
+        elif api == 13:
+            name = s
+            headers[name] = value
+        else:
+            value = s
+            headers.add(name, value)           # validated path
+        h.request.connection.write_headers(httputil.ResponseStartLine("HTTP/1.1", 200, reason), headers)
+        env.run_ready()
+    except Exception as e:
+        exc = e
+    return stream.wire(), exc, "HTTP/1.1 200 " + reason, httputil._normalize_header(name) + ": " + value
+
+
+def _direct(api, s):
+    with install() as env:
+        wire, exc, status, hline = direct_call(env, api, s)
+        if exc is not None:
+            reached("direct_rejected")
+            assert wire == b"", "a rejected write_headers call still wrote %r" % wire
+            return
+        reached("direct_on_wire")
+        assert wire.endswith(b"\r\n\r\n") and wire.count(b"\r\n\r\n") == 1, "header block is split / body injected"
+        lines = wire[:-4].split(b"\r\n")
+        for ln in lines:
+            assert b"\r" not in ln and b"\n" not in ln and b"\0" not in ln, \
+                "CR/LF/NUL supplied through write_headers reached the wire: %r" % ln
+        assert len(lines) == DIRECT_BASE[0], "expected %d lines, got %r" % (DIRECT_BASE[0], lines)
+        assert lines[0] == status.encode("utf-8"), "status line is not the intended one: %r" % lines[0]
+        assert lines.count(hline.encode("latin1")) == 1, "intended header line %r not on the wire exactly once: %r" % (hline, lines)
+
+
 BASELINE = []
+DIRECT_BASE = []
 
 
 def _init_baseline():
     web.time = httputil.time = FixedTime()
     BASELINE.append(baseline_lines())
+    with install() as env:
+        wire, exc, _st, _hl = direct_call(env, 12, "v")
+        assert exc is None
+        DIRECT_BASE.append(wire[:-4].count(b"\r\n") + 1)      # status line, X-A, Transfer-Encoding
 
 
 _init_baseline()
@@ -222,6 +281,10 @@ def x_sanitisers(tier, seed):
         ("_ABNF.field_value excludes CR LF NUL", lambda: rx.excludes_chars(rx.to_z3(A.field_value), bad)),
         ("CR_OR_LF_RE.search finds every CR/LF (bytes)",
          lambda: rx.included(has_crlf, rx.to_z3(http1connection.CR_OR_LF_RE, mode="search"), universe=anyb)),
+        ("write_headers_guard: the pattern applied to every line of the head (CR_OR_LF_RE.search) finds every CR, LF and "
+         "NUL (bytes) - the only filter for data given to write_headers directly",
+         lambda: rx.included(z3.Concat(rx.anystr(), rx.chars("\r\n\0"), rx.anystr()),
+                             rx.to_z3(http1connection.CR_OR_LF_RE, mode="search"), universe=anyb)),
         ("_FORBIDDEN_HEADER_CHARS_RE.search finds every LF and NUL (multipart header values)",
          lambda: rx.included(z3.Concat(rx.anystr(), rx.chars("\n\0"), rx.anystr()),
                              rx.to_z3(httputil._FORBIDDEN_HEADER_CHARS_RE, mode="search"))),
@@ -243,9 +306,16 @@ def x_sanitisers(tier, seed):
         if verdict == "unsat":
             dis += 1
         elif verdict == "sat":
-            status = "VIOLATION"
-            viol.append(dict(detail=title + ": witness passes the sanitiser", input=repr(w),
-                             finding_key="C07-" + title.split()[0]))
+            key = "C07-" + title.split()[0]
+            if title.startswith("write_headers_guard"):
+                # replay the witness on the real pattern before reporting
+                wb = w.encode("latin-1")
+                if http1connection.CR_OR_LF_RE.search(wb) is not None or not any(c in wb for c in b"\r\n\0"):
+                    status = "ERROR"
+                    continue
+                key = "direct_write_headers_nul"
+            status = "VIOLATION" if status != "ERROR" else status
+            viol.append(dict(detail=title + ": witness passes the sanitiser", input=repr(w), finding_key=key))
         elif status == "PROVED":
             status = "BOUNDED"
     return dict(status=status, obligations=obl, discharged=dis, queries=q, solver_s=round(secs, 2),
